@@ -9,19 +9,21 @@ Open Scope Z_scope.
 (** (entries given to Entry.Format, the bytes it produced for all of them in
     order, the entries NewEntryDecoder/Decode returned for those bytes, the kind
     of error that ended decoding: 0 io.EOF, 1 time.Parse, 2 strconv, 3 other) *)
-Definition codec_case := (list entry * list byte * list entry * Z)%type.
+(** The bytes are given in chunks (a literal list of several ten thousand
+    elements is beyond the parser's stack); [concat] puts them together. *)
+Definition codec_case := (list entry * list (list byte) * list entry * Z)%type.
 
 Definition entries_eqb := list_eqb entry_eqb.
 
 (** the model's formatter produces the observed bytes *)
 Definition fmt_model_bad (c : codec_case) : bool :=
-  let '(ins, stream, _, _) := c in
-  negb (bytes_eqb (concat (map format ins)) stream).
+  let '(ins, chunks, _, _) := c in
+  negb (bytes_eqb (concat (map format ins)) (concat chunks)).
 
 (** the model's decoder returns the observed entries and status *)
 Definition dec_model_bad (c : codec_case) : bool :=
-  let '(_, stream, outs, err) := c in
-  let '(es, k) := decode_stream stream in
+  let '(_, chunks, outs, err) := c in
+  let '(es, k) := decode_stream (concat chunks) in
   negb (entries_eqb es outs && (k =? err)).
 
 (** plain meaning: what was formatted is what is decoded, nothing else *)
@@ -37,7 +39,9 @@ Definition raw_model_bad (c : raw_case) : bool :=
   negb (entries_eqb es outs && (k =? err)).
 
 (** * Rotation and GC histories *)
-Inductive hop := HLog (id len : Z) | HSetMax (m : Z) | HGc (bound : Z) | HSetSync (b : bool) | HSnap | HPeek.
+(** [HLog id len now]: [now] is the time stamp of the file the logger writes to
+    after the call (syncBuffer.lastRotation): the clock of the model run. *)
+Inductive hop := HLog (id len now : Z) | HSetMax (m : Z) | HGc (bound : Z) | HSetSync (b : bool) | HClose | HSnap | HPeek.
 
 (** a file as observed: (time stamp of the name, size, user message ids) *)
 Definition ofile := (Z * Z * list Z)%type.
@@ -51,17 +55,19 @@ Record hist_case := mkHist {
   hc_fetch : option (list Z)      (* FetchEntriesFromFiles at the end, chronological *)
 }.
 
-(** The clock of the model run: later than every planted file.  The observed
-    time stamps are not compared with the model's (only the order they induce
-    is, through the order of the files in the snapshots). *)
+(** The clock of the model runs of several loggers: later than every planted
+    file.  The single-logger histories run the model with the observed clock
+    (see [HLog]); time stamps are not compared (only the order they induce is,
+    through the order of the files in the snapshots). *)
 Definition model_now : Z := 4000000000.
 
 Definition to_rop (o : hop) : rop :=
   match o with
-  | HLog id len => RLog model_now model_now id len
+  | HLog id len now => RLog now now id len
   | HSetMax m => RSetMax m
   | HGc b => RGc b
   | HSetSync b => RSetSync b
+  | HClose => RClose
   | HSnap => RSnap
   | HPeek => RPeek
   end.
@@ -130,8 +136,9 @@ Fixpoint stamps_increasing (s : list ofile) : bool :=
 Fixpoint hist_walk (prev : list ofile) (pending : list Z) (ops : list hop) (snaps : list (list ofile)) : bool :=
   match ops with
   | [] => match snaps with [] => true | _ => false end
-  | HLog id _ :: tl => hist_walk prev (pending ++ [id]) tl snaps
+  | HLog id _ _ :: tl => hist_walk prev (pending ++ [id]) tl snaps
   | HSetMax _ :: tl => hist_walk prev pending tl snaps
+  | HClose :: tl => hist_walk prev pending tl snaps        (* closing and re-opening loses nothing *)
   | HSetSync _ :: tl => hist_walk prev pending tl snaps   (* the mode does not change what must be read back *)
   | (HSnap | HPeek) :: tl =>      (* HPeek: only issued in sync mode, where nothing may be buffered *)
       match snaps with
@@ -163,7 +170,7 @@ Definition hist_oracle_bad (c : hist_case) : bool :=
 Fixpoint no_hgc (ops : list hop) : bool :=
   match ops with [] => true | HGc _ :: _ => false | _ :: tl => no_hgc tl end.
 Fixpoint hlogged (ops : list hop) : list Z :=
-  match ops with [] => [] | HLog id _ :: tl => id :: hlogged tl | _ :: tl => hlogged tl end.
+  match ops with [] => [] | HLog id _ _ :: tl => id :: hlogged tl | _ :: tl => hlogged tl end.
 
 (** without GC, the last snapshot reads back the messages of the files that were
     there before (oldest first) and then every logged message once, in order *)
